@@ -73,8 +73,8 @@ CHECKS = {
         level="model_checking", design="DESIGN.md 4/C10",
         technique="laws model-checked on the TLA+ definition; related pairs of real calls trace-validated by TLC",
         text="Act M proves identity, non-negativity, symmetry with the psi swap and monotonicity in window / psi / max_step / "
-             "penalty for the definition on every case of the slice; for recorded pairs of real calls (both engines, "
-             "distance-matrix mirror entries) TLC checks each relation and the base value against Opt. For ALL sizes tlapm "
+             "penalty for the definition on every case of the slice; for recorded pairs of real calls (both engines, symmetry "
+             "also under pruning and max_length_diff, distance-matrix mirror entries) TLC checks each relation and the base value against Opt. For ALL sizes tlapm "
              "proves that the band, the psi corners and the step relation are symmetric under the swap and that a "
              "larger window / psi only adds cells (LayoutProofs.tla, tied to DTWCore by a TLC invariant).",
         note="Trusted: TLC, exact-domain encoding. Independent of any reference implementation."),
@@ -93,7 +93,8 @@ CHECKS = {
         text="Act M proves for EVERY block with n <= 6 (8 thorough) that the Python length, the C length, the serial loop "
              "order, the OpenMP row plan and distance_array_index agree with the declarative row-major Pairs. The same "
              "complete block space (n <= 5/6) is then executed on the real code: three length functions, the index "
-             "list, the compact result through 6-9 routes (Python, C serial, Cython, direct dtw_distances_* calls; list, "
+             "list, the compact result through 6-12 routes (Python, C serial, Cython, direct dtw_distances_* calls incl. the "
+             "two-collection routines with fewer rows / columns than series; list, "
              "2-D and 3-D array containers; ndim 1-2), square forms (mirrored / only_triu) and distance_array_index, "
              "and TLC judges layout and every value (values from DTWCore, settings incl. asymmetric psi, max_step, "
              "max_dist, max_length_diff).",
@@ -123,7 +124,8 @@ CHECKS = {
         text="TLC proves for all (l1,l2) <= 8x8 (12x12) and all windows that the compact layout keeps every in-band cell "
              "inside the advertised buffer and that each region's recurrence reads predecessor/border/filler slots. The "
              "code is then run under ASan+UBSan (library compiled from /repo's C sources) over all (l1,l2) <= 7x7 (9x9), "
-             "all windows, psi 4-tuples (degenerate included), options on/off, ndim 1-3, every block for n <= 4 (5), DBA "
+             "all windows, psi 4-tuples (degenerate included), options on/off, ndim 1-3, every block for n <= 4 (5) incl. the "
+             "two-collection routines for every (rows, columns), DBA "
              "masks across the byte boundaries (9, 10, 17 series) and the affinity routines, with caller buffers of "
              "exactly the documented sizes. For ALL sizes, tlapm proves on Layout.tla (tied to Compact.tla by a TLC "
              "invariant) that every stored cell has a slot inside its row of the advertised buffer. TLC cannot observe "
@@ -137,7 +139,8 @@ CHECKS = {
              "selected series, that the averaging step stays in the value range, does not increase the sum of squared DTW "
              "costs and fixes identical series. Recorded results of dba (Python; Python averaging over C paths), "
              "dtw_cc.dba/dba_ndim (list and matrix containers), direct dtw_dba_ptrs/_matrix calls and dba_loop are "
-             "rationalised exactly and accepted iff SOME choice of optimal paths explains them; loop steps <= max_it; "
+             "rationalised exactly and accepted iff SOME choice of optimal paths explains them (a series-by-series search that "
+             "MC_DBA checks equal to the declarative definition: invariant SearchAgrees); loop steps <= max_it; "
              "the sampled-path variant (nb_prob_samples > 0) is judged by the range clause.",
         note="Trusted: TLC; exact rationalisation of float averages (denominators <= 5000, 1e-11). Engines agree where "
              "optimal paths are unique because both must be explained by the same unique choice."),
@@ -171,7 +174,8 @@ CHECKS = {
              "(given matrices through dists_fun, real series through dtw.distance_matrix(_fast), order_hook, "
              "side-swapping merge_hook, re-used model objects) are replayed: every event must be an enabled Merge, the "
              "end state stuck, the dictionary equal to the state (max_dist between and exactly at attainable "
-             "distances, tree objects fitted repeatedly); LinkageTree (also with only_triu) is compared with SciPy on "
+             "distances and 0, also handed to the tree; only_triu=False in the options; tree objects fitted repeatedly; a fit "
+             "that does not return is reported); LinkageTree (also with only_triu) is compared with SciPy on "
              "the condensed vector in the documented pair order.",
         note="Trusted: TLC; SciPy's linkage as the oracle the property itself names."),
     "C16": dict(
@@ -180,7 +184,7 @@ CHECKS = {
         text="TLC explores the k-means loop over ALL rank tables (k <= 3, n <= 4, max_it <= 2) with outlier masks and "
              "empty-cluster repair as nondeterministic choices: every terminal state has keys 0..k-1, a partition, "
              "nearest-mean membership and performed_it <= max_it+1. Real fits (seeds x initialisation modes x "
-             "drop_stddev x window/penalty/psi (scalar and per-series 4-tuples) x use_c x containers, a few with the real Pool) are judged by the same "
+             "drop_stddev x window/penalty/psi (scalar and per-series 4-tuples) x use_c x containers, a few with the real Pool, second fits on the same object) are judged by the same "
              "predicate on the returned clusters, len(means), performed_it, monitor_distances calls, and the dense "
              "ranks of DTW distances series x final means computed with the library's single-pair routine.",
         note="Trusted: TLC; dtw.distance / dtw_ndim.distance for the ranks (decided under C01/C02/C11); ranks tie values "
@@ -190,7 +194,7 @@ CHECKS = {
         technique="TLA+ NW: recurrence proved equal to the maximum over all enumerated global alignments; recorded values, score matrices and alignments trace-validated",
         text="Act M: for all sequence pairs up to length 3/4 over a binary alphabet x substitution tables x gap scores the "
              "dynamic programme with its border equals the maximum over ALL global alignments. Real calls (default and "
-             "dictionary scoring with fractional and zero gap costs, max/min orientation, lengths 0..6, six traceback orders): TLC "
+             "dictionary scoring with fractional and zero gap costs, max/min orientation, lengths 0..6, six traceback orders, symbols that are equal but not identical objects): TLC "
              "judges value = optimum, the score matrix cell by cell and every alignment (equal lengths, reduces to the "
              "inputs, no gap/gap column, scores the value).",
         note="Trusted: TLC; scores scaled by 2 to keep half-integer gap costs exact."),
@@ -200,7 +204,8 @@ CHECKS = {
         text="Exact regime: affinities 2^-d^2 at scale 2^17. Act M: cells non-negative in band / excluded outside, and the "
              "iterator state machine (take a maximal unconsumed positive cell, walk back along positive unconsumed "
              "predecessors, restart/keep) always yields histories satisfying HistoryOK. Real runs: the matrix of "
-             "warping_paths_affinity (Python, use_c, fast, compact + full-range expansion) judged cell by cell, and "
+             "warping_paths_affinity (Python, use_c, fast, compact + full-range expansion; psi relaxation at the begin of "
+             "either series) judged cell by cell, and "
              "local_concurrences histories of kbest_matches calls (k, minlen, buffer, restart) for Python / C / "
              "C-compact judged by HistoryOK, which includes that a search on an unmasked matrix ends in a cell holding "
              "the maximum.",
@@ -224,7 +229,8 @@ CHECKS = {
         text="Seeded histories of calls drawn from 20 routines over shared series, collections and a settings dictionary, "
              "with the container kind (list, tuple, array('d'), ndarray, strided / negative-stride / F-ordered / "
              "transposed views, list or tuple of arrays incl. strided members, 2-D array, SeriesContainer) and the engine re-drawn per call, "
-             "repeated calls, and a second pass with NumPy hidden; contents of EVERY object are recorded before and "
+             "repeated calls (collection containers re-drawn, DBA centres of another length, parallel matrix routes with one-sided psi), "
+             "and a second pass with NumPy hidden; contents of EVERY object are recorded before and "
              "after every call. TLC judges: no object changed; equal (routine, content, settings) => equal result "
              "across kinds, engines, NumPy presence and history; distance results equal DTWCore.",
         note="Trusted: TLC; canonical result encoding with 10 significant digits; routines that may pick among ties "
